@@ -14,6 +14,9 @@ open Gen
 
 def SpanOK (n : Nat) (p : List Art) : Prop := Sorted p ∧ ∀ a ∈ p, a.ms < a.me ∧ a.me ≤ n
 
+/-- … and additionally no element starts before `lo` -/
+def SpanIn (lo hi : Nat) (p : List Art) : Prop := SpanOK hi p ∧ ∀ a ∈ p, lo ≤ a.ms
+
 theorem applyRule_span (name : String) (ts : Ts) (w : List Art) (x : Art) (h : applyRule name ts w = .ok (some x)) :
     ∃ a b, w.head? = some a ∧ w.getLast? = some b ∧ x.ms = a.ms ∧ x.me = b.me := by
   unfold applyRule at h
@@ -115,5 +118,26 @@ theorem reach_span (sc : Scorer S) (ts : Ts) (depth : Nat) (txt : List Nat) (n :
     rw [hsplit] at ih
     rw [e1]
     exact spanOK_replace n _ _ _ x a b ha hl hxs hxe ih
+
+/-- the same with a lower bound: if no element of the initial sequences starts before `lo`, nothing ever does -/
+theorem reach_span_in (sc : Scorer S) (ts : Ts) (depth : Nat) (txt : List Nat) (lo hi : Nat) (init : List (E Art S))
+    (hinit : ∀ e ∈ init, SpanIn lo hi e.prod) (p : List Art) (t : List String) (rules : List (String × List Pred))
+    (hr : ReachE (mkCfg sc ts depth txt) init p t rules) : SpanIn lo hi p := by
+  induction hr with
+  | init hm => exact hinit _ hm
+  | @step p t rules succs p' t' k hreach hexp hmem ih =>
+    have hsp := reach_span sc ts depth txt hi init (fun e he => (hinit e he).1) p' t' rules (ReachE.step hreach hexp hmem)
+    refine ⟨hsp, ?_⟩
+    obtain ⟨r, _, i, hi', x, hx, e⟩ := expand_sound ts rules p t succs hexp _ hmem
+    have e1 : p' = p.take i ++ x :: p.drop (i + r.2.length) := by
+      have := congrArg Prod.fst e; simpa using this
+    obtain ⟨a, b, ha, _, hxs, _⟩ := applyRule_span r.1 ts _ x hx
+    intro c hc
+    rw [e1] at hc
+    simp only [List.mem_append, List.mem_cons] at hc
+    rcases hc with hc | rfl | hc
+    · exact ih.2 c (List.mem_of_mem_take hc)
+    · rw [hxs]; exact ih.2 a (List.mem_of_mem_drop (List.mem_of_mem_take (List.mem_of_mem_head? ha)))
+    · exact ih.2 c (List.mem_of_mem_drop hc)
 
 end QuickAdd
